@@ -371,7 +371,8 @@ def __neg(units):
 
 
 def __add_and_sub(units_var1, units_var2):
-    if units_var1 and units_var2 and units_var1 != units_var2:
+    # compare as plain mappings: the order in which the factors were written is irrelevant
+    if units_var1 and units_var2 and dict(units_var1) != dict(units_var2):
         warnings.warn("You're trying to add/subtract two values with mismatching units.")
         return OrderedDict()
     if not units_var1:  # If any of the two units are empty, use the other one
